@@ -61,3 +61,25 @@ PROPS["C03"] = {
                       "range ends / index 1..2 symbols past the end or reversed bounds"},
     "outside": "stores longer than 192 bits; indices whose product with BITS overflows usize (DESIGN 5-O1)",
 }
+
+PROPS["C10"] = {
+    "feature": "c10",
+    "tiers": tiers("C10"),
+    "mem_gb": 8,
+    "functions": ["derive(PartialOrd, Ord, PartialEq, Eq) on Kmer (storage integer)", "Ord/PartialOrd on Seq", "Iterator::min over KmerIter",
+                  "From<&Kmer> for usize"],
+    "bounds": {"all": "two/three fully symbolic canonical k-mers per (codec, K) instance listed; minimiser: K=4 over a 6-symbol window at "
+                      "symbolic offset 0..58 of two symbolic words; owned sequences: equal length n<=2 (quick) / 3 (thorough), symbolic content"},
+    "outside": "K not instantiated; sequences longer than 3 symbols (the comparison is a per-bit loop on heap bit-vectors)",
+}
+
+PROPS["C13"] = {
+    "feature": "c13",
+    "tiers": tiers("C13"),
+    "mem_gb": 8,
+    "functions": ["translation::Standard::to_amino / to_codon", "From<&SeqSlice> for u8", "Amino::unsafe_from_bits", "SeqSlice::windows/chunks (composition)"],
+    "bounds": {"all": "finite domain decided completely: 3 symbolic words, codon start symbolic in 0..=93 (all 64 codons x every in-word offset "
+                      "x both straddling positions in one query); windows(3)/chunks(3) over a 6/7-symbol window at symbolic offset"},
+    "outside": "nothing for the codon map; windows/chunks composition on longer sequences follows from C11",
+    "explanation": "solver-exhaustive over codons x offsets",
+}
